@@ -44,7 +44,13 @@ def showState (st : St) (r : Res) : String :=
     (List.range s.nTokens).map fun t => toString (getBal s.erc (a, t)))
   let rel := ",".intercalate ((s.relTx.mergeSort (fun a b => a ≤ b)).map toString)
   let fm := ",".intercalate ((s.fromMsg.mergeSort (fun a b => a ≤ b)).map toString)
-  s!"{res} next={s.nextTxId},{s.nextBatchId},{s.nextCallId} pool=[{pool}] batches=[{batches}] calls=[{calls}] pend=[{pend}] obs={s.obsExt},{s.obsFx},{s.eventNonce} bal={bal} erc={erc} rel=[{rel}] frommsg=[{fm}]"
+  -- the voting layer: the stored attestations of the last observed and of later event nonces (event nonce, voters in vote
+  -- order, observed), and the last event nonce of every oracle
+  let atts := ";".intercalate (((st.vs.atts.filter fun a => decide (s.eventNonce ≤ a.nonce)).mergeSort
+      (fun a b => a.nonce * 1000 + a.votes.headD 0 ≤ b.nonce * 1000 + b.votes.headD 0)).map fun a =>
+    s!"{a.nonce}:" ++ ",".intercalate (a.votes.map toString) ++ s!":{if a.observed then 1 else 0}")
+  let last := ",".intercalate (st.vs.last.map toString)
+  s!"{res} next={s.nextTxId},{s.nextBatchId},{s.nextCallId} pool=[{pool}] batches=[{batches}] calls=[{calls}] pend=[{pend}] obs={s.obsExt},{s.obsFx},{s.eventNonce} bal={bal} erc={erc} rel=[{rel}] frommsg=[{fm}] atts=[{atts}] last={last}"
 
 /-- the line also says whether the external-chain ghost (`Model/C05Ext.lean`) finds an observed event admissible -/
 def apply (st : St) (op : Op) : St × String :=
